@@ -150,6 +150,14 @@ fn check(t: &mut Tape, ctx: &mut Ctx) -> CheckResult {
     let lsp = LOH::spider(sv::ff(f.d.s.clone(), nn), sv::ff(f.d.t.clone(), nn), obs(&w)).ok_or_else(|| ctx.fail("constructors-agree", "lax spider rejected in-range legs"))?;
     let ssp = sv::SOH::spider(sv::ff(f.d.s.clone(), nn), sv::ff(f.d.t.clone(), nn), sv::ty(&w)).ok_or_else(|| ctx.fail("constructors-agree", "strict spider rejected in-range legs"))?;
     require_iso(ctx, "constructors-agree", &strictify(ctx, &lsp, "strict(lax spider)")?, &wf(ctx, "strictify-wf", sv::from_strict(&ssp), "spider")?, "strict(lax spider) vs strict spider")?;
+    // half-spider (derived constructor: the target leg is the identity on all nodes)
+    {
+        use open_hypergraphs::category::Spider;
+        let lhs = <LOH as Spider<sv::K>>::half_spider(sv::ff(f.d.s.clone(), nn), obs(&w)).ok_or_else(|| ctx.fail("constructors-agree", "lax half_spider rejected an in-range leg"))?;
+        let shs = <sv::SOH as Spider<sv::K>>::half_spider(sv::ff(f.d.s.clone(), nn), sv::ty(&w)).ok_or_else(|| ctx.fail("constructors-agree", "strict half_spider rejected an in-range leg"))?;
+        wf(ctx, "lax-wf", from_lax(&lhs), "lax half_spider")?;
+        require_iso(ctx, "constructors-agree", &strictify(ctx, &lhs, "strict(lax half_spider)")?, &wf(ctx, "strictify-wf", sv::from_strict(&shs), "half_spider")?, "strict(lax half_spider) vs strict half_spider")?;
+    }
 
     // thin public wrappers and deprecated aliases must agree with what they wrap
     ctx.sub("aliases-agree");
